@@ -359,7 +359,8 @@ def rule_afd1(chk, prog, rule="AFD1"):
                             ok = True
                 else:
                     for (sb, tt, ft) in bool_branch(f, tst.dest[0]):
-                        if edge_dominates(f, sb, tt, c.bb):
+                        # `e == WouldBlock` holds on the true edge of eq and on the false edge of ne
+                        if edge_dominates(f, sb, ft if (tst.path or "").endswith("::ne") else tt, c.bb):
                             ok = True
             chk.instance(rule, c.where(), "clear_ready #%d in %s only after the operation reported WouldBlock" % (n, f.path), ok)
             if not ok:
@@ -406,7 +407,7 @@ def rule_addr_map(chk, prog, rule, role):
                     "the real one for addresses in ::/96 (use to_ipv4_mapped)" % (c.fn.path, role))
 
 
-def rule_wire(chk, prog, rule="WIRE", which=("REQ4", "RESP4", "RESP5")):
+def rule_wire(chk, prog, rule="WIRE", which=("REQ4", "RESP4", "RESP5", "REQ5")):
     """Encoder and decoder of the same SOCKS message agree on its layout: the sequences of fixed-width fields, NUL-terminated strings
     and length-prefixed strings written on the successful paths of the encoder are exactly those the project's own decoder of that
     message reads (engine/wire.py).  A byte too many or too few on one alternative (an unconditional terminator, a field written for
@@ -416,9 +417,16 @@ def rule_wire(chk, prog, rule="WIRE", which=("REQ4", "RESP4", "RESP5")):
         "REQ4": (r"^common::socks::SocksRequest::<T>::write_v4$", r"^common::socks::SocksRequest::<T>::read_v4$", (1,), True,
                  "SOCKS4/4a request (version byte read by read_from)"),
         "RESP4": (r"^common::socks::SocksResponse::write_v4$", r"^common::socks::SocksResponse::read_v4$", (1,), True, "SOCKS4 reply"),
-        "RESP5": (r"^common::socks::SocksResponse::write_v5$", r"^common::socks::SocksResponse::read_v5$", (1,), False,
-                  "SOCKS5 reply (address assembled in a buffer by the encoder: compared field by field with a wildcard)"),
+        "RESP5": (r"^common::socks::SocksResponse::write_v5$", r"^common::socks::SocksResponse::read_v5$", (1,), True,
+                  "SOCKS5 reply (the encoder assembles the address in a buffer: its pushes/extends are followed)"),
+        "REQ5": (r"^common::socks::SocksRequest::<T>::write_v5$", r"^common::socks::SocksRequest::<T>::read_v5$", (1,), True,
+                 "SOCKS5 negotiation and request (both directions of the dialogue in one sequence; authentication sub-protocol opaque)"),
+        # in-memory codecs: what is put into / taken out of the datagram buffer
+        "UDP5": (r"^common::socks::frames::encode_socks_frame$", r"^common::socks::frames::decode_socks_frame$", (), True,
+                 "SOCKS5 UDP request header (the encoder's trailing payload is not part of the header)"),
+        "ADDR": (r"^common::frames::encode_address$", r"^common::frames::decode_address$", (), True, "address attribute of the internal UDP frame"),
     }
+    BUFFER_MODE = {"UDP5": "payload", "ADDR": ""}
     n = 0
     for name in which:
         wp, rp, prefix, both, label = PAIRS[name]
@@ -426,14 +434,19 @@ def rule_wire(chk, prog, rule="WIRE", which=("REQ4", "RESP4", "RESP5")):
         if len(wf) != 1 or len(rf) != 1:
             chk.anchor_missing(rule, "encoder/decoder pair %s" % name)
             continue
-        wl = wire.layouts(prog, prog.body_of(wf[0]))
-        rl = wire.layouts(prog, prog.body_of(rf[0]))
+        mode = "buffer" if name in BUFFER_MODE else "socket"
+        wl = wire.layouts(prog, prog.body_of(wf[0]), mode=mode)
+        rl = wire.layouts(prog, prog.body_of(rf[0]), mode=mode)
+        if wl and BUFFER_MODE.get(name) == "payload":
+            wl = set(w[:-1] if w and w[-1] == "var" else w for w in wl)
         if wl is None or rl is None or not wl or not rl:
             chk.finding(rule, wf[0].key, "layout-unrecognised", name, "%s:%s" % (wf[0].file, wf[0].line),
                         "the socket operations of %s / %s could not be enumerated (too many paths or an unknown shape); failing closed" % (wf[0].path, rf[0].path))
             continue
         n += 1
-        rl2 = wire.fold_lstr(rl)
+        rl2 = wire.merge_fixed(wire.fold_lstr(set(tuple(prefix) + r for r in rl)))
+        wl = wire.merge_fixed(wire.fold_lstr(wl))
+        prefix = ()
         missing, unused = wire.compatible(wl, rl2, prefix)
         ok = not missing and (not unused or not both)
         chk.instance(rule, "%s:%s" % (wf[0].file, wf[0].line), "%s: layouts written %s = layouts read %s" % (
